@@ -414,14 +414,37 @@ func c18Run(c *lib.Ctx) {
 		}
 		c.Count("accounting_sequences", 1)
 	}
+	// concurrent callers: the collector scenarios of the schedule explorer (engine E3, see c11.go)
+	w := newC11World(c)
+	for si, sc := range c11Scenarios() {
+		if sc.Name != "S5-collector-new-series" && sc.Name != "S9-counter-increments" && sc.Name != "S4-monitored-database" {
+			continue
+		}
+		if !c.Mine(int64(si)) {
+			continue
+		}
+		bound := 2
+		if sc.Name == "S4-monitored-database" {
+			bound = 1
+		}
+		viols, e, outcomes := c11Explore(c, w, sc, bound, 1, 0, nil)
+		for _, v := range viols {
+			v.Key = "concurrent:" + v.Key
+			c.Violate(v)
+		}
+		c.Rep.Evaluations += e.Execs
+		c.Rep.Transitions += e.Execs
+		c.Count("schedules:"+sc.Name, e.Execs)
+		c.Count("schedule_outcomes:"+sc.Name, int64(len(outcomes)))
+	}
 	c.Rep.Traces = c.Rep.Evaluations
 }
 
 func init() {
 	lib.Register(&lib.Check{
 		ID: "C18", Level: "model_checking",
-		Rule:      "(identity) names {m, 'm:a=1', ''} x all 28 tag maps with <=3 tags over keys {a,b,c} and values {1,2} (plus nil and empty) x {counter, gauge, histogram, timer}: the metric is requested twice under EVERY assignment of iteration orders to the tag-map range points of the key computation (full DFS over the choice tree, all n! orders per point); both requests must return the same pointer, both events must land in it, GetAllMetrics must list one series. (monitor) every sequence of <=3 (quick) / <=4 (thorough) calls of RecordDatabaseOperation(load ok / load failed / save ok) and RecordSearchOperation(hit / miss) under every order assignment (cap 3000 schedules per sequence, reported): per-identity and total counts in the report equal the operations recorded, one series per identity. (accounting) every sequence of 4 (quick) / 5 (thorough) operations over {Inc, Add(3), Observe(0.125|0.25|1|7|20000), Set(2.5), Reset}: counter, histogram count / exact sum / mean, gauge, percentile monotonicity and GetAllMetrics after every step. states = cases; transitions = executions under distinct order assignments",
-		Assume:    []string{"only map ranges inside internal/metrics are explored here; dyadic observation values make the exact sum order-independent", "concurrent get-or-create and increments are explored by C11 (scenario S5)"},
+		Rule:      "(identity) names {m, 'm:a=1', ''} x all 28 tag maps with <=3 tags over keys {a,b,c} and values {1,2} (plus nil and empty) x {counter, gauge, histogram, timer}: the metric is requested twice under EVERY assignment of iteration orders to the tag-map range points of the key computation (full DFS over the choice tree, all n! orders per point); both requests must return the same pointer, both events must land in it, GetAllMetrics must list one series. (monitor) every sequence of <=3 (quick) / <=4 (thorough) calls of RecordDatabaseOperation(load ok / load failed / save ok) and RecordSearchOperation(hit / miss) under every order assignment (cap 3000 schedules per sequence, reported): per-identity and total counts in the report equal the operations recorded, one series per identity. (accounting) every sequence of 4 (quick) / 5 (thorough) operations over {Inc, Add(3), Observe(0.125|0.25|1|7|20000), Set(2.5), Reset}: counter, histogram count / exact sum / mean, gauge, percentile monotonicity and GetAllMetrics after every step. (concurrent) the collector scenarios of the schedule explorer: two goroutines creating the same new series + a third observing and listing (S5), three goroutines incrementing one counter / gauge (S9) under every interleaving with <=2 preemptions, monitored searches (S4) with <=1: same pointer, no lost increment, one series. states = cases; transitions = executions under distinct order assignments / schedules",
+		Assume:    []string{"only map ranges inside internal/metrics are explored here; dyadic observation values make the exact sum order-independent", "scheduling points = sync / atomic operations (build overlay shims); deeper bounds of the same scenarios run under C11"},
 		QuickSecs: 120, ThorSecs: 900, Graph: true,
 		Run: c18Run,
 		Replay: func(c *lib.Ctx, raw json.RawMessage) []lib.Violation {
@@ -440,7 +463,7 @@ func init() {
 			return nil
 		},
 		Finish: func(m *lib.Report, tier string) string {
-			for _, k := range []string{"identity_cases_with_several_orders", "monitor_sequences", "accounting_sequences"} {
+			for _, k := range []string{"identity_cases_with_several_orders", "monitor_sequences", "accounting_sequences", "schedules:S5-collector-new-series", "schedules:S9-counter-increments"} {
 				if m.Counters[k] == 0 {
 					return "vacuous: counter " + k + " is zero"
 				}
